@@ -21,6 +21,7 @@ type CheckCfg struct {
 	Contract []string `json:"contract"` // functions verified against their contracts (+ safety sweep)
 	Sweep    []string `json:"sweep"`    // functions swept for panic freedom only (no contract needed)
 	SweepFiles []string `json:"sweep_files"` // every function declared in these files is swept
+	SweepTypes []string `json:"sweep_types"` // every method of these types (pkg.Type) and every function returning them is swept
 	NoSweep  []string `json:"nosweep"`  // functions verified against contracts without safety obligations
 	Reset    []ResetCfg `json:"reset"`
 	Commute  []string `json:"commute"`  // functions whose map-range loops get commutation obligations
@@ -144,6 +145,18 @@ func checkMain(args []string) int {
 	}
 	for _, n := range cfg.Sweep {
 		add(n, true, false)
+	}
+	for _, tn := range cfg.SweepTypes {
+		fns := w.funcsOfType(tn)
+		if len(fns) == 0 {
+			missing = append(missing, [2]string{tn, "listener type not found in the current tree: " + tn})
+		}
+		for _, fn := range fns {
+			if !seen[fn] {
+				seen[fn] = true
+				results = append(results, verifyFunc(w, ss, fn, true))
+			}
+		}
 	}
 	for _, f := range cfg.SweepFiles {
 		for _, fn := range w.funcsInFile(f) {
@@ -439,6 +452,40 @@ func statusOf(o *Obligation) string {
 }
 
 func round3(f float64) float64 { return float64(int(f*1000+0.5)) / 1000 }
+
+// funcsOfType: every method declared on the named type ("pkgname.Type") and every package function returning *Type
+func (w *World) funcsOfType(name string) []*ssa.Function {
+	var out []*ssa.Function
+	i := strings.LastIndex(name, ".")
+	if i < 0 {
+		return nil
+	}
+	pn, tn := name[:i], name[i+1:]
+	for _, fn := range w.allRepoFuncs() {
+		if fn.Synthetic != "" || fn.Blocks == nil || fn.Pkg == nil || fn.Pkg.Pkg.Name() != pn || fn.Parent() != nil {
+			continue
+		}
+		if strings.HasSuffix(w.Prog.Fset.Position(fn.Pos()).Filename, "_test.go") {
+			continue
+		}
+		if r := fn.Signature.Recv(); r != nil {
+			if nodeTypeName(r.Type()) == tn {
+				out = append(out, fn)
+			}
+			continue
+		}
+		res := fn.Signature.Results()
+		if res.Len() == 1 && nodeTypeName(res.At(0).Type()) == tn {
+			if n, ok := res.At(0).Type().(*types.Pointer); ok {
+				if nn, ok := n.Elem().(*types.Named); ok && nn.Obj().Pkg() == fn.Pkg.Pkg {
+					out = append(out, fn)
+				}
+			}
+		}
+	}
+	sort.Slice(out, func(i, j int) bool { return fnFull(out[i]) < fnFull(out[j]) })
+	return out
+}
 
 // funcsInFile: every function (and method, and closure) declared in a repo file (path relative to /repo)
 func (w *World) funcsInFile(rel string) []*ssa.Function {
